@@ -9,6 +9,7 @@ package main
 
 import (
 	"crypto/sha256"
+	"encoding/hex"
 	"fmt"
 	"strings"
 )
@@ -33,6 +34,22 @@ func (in *Interp) hashBytes(bs []*Term) []*Term {
 	L := in.hashLen
 	if L == 0 {
 		in.unsupported("hash model used before rt.SetDigestLen")
+	}
+	if in.cfg.Concrete != nil {
+		raw := make([]byte, len(bs))
+		for i, b := range bs {
+			if !b.IsConst() {
+				in.unsupported("symbolic byte in concrete-mode hash")
+			}
+			raw[i] = byte(b.Val)
+		}
+		sum := sha256.Sum256(raw)
+		out := make([]*Term, L)
+		for k := 0; k < L; k++ {
+			out[k] = in.tt.byteC[sum[k]]
+		}
+		in.hashApps++
+		return out
 	}
 	var chunks []*Term
 	var sig strings.Builder
@@ -222,4 +239,67 @@ func (in *Interp) digestModel() []InputValue {
 		out = append(out, InputValue{Name: d.Name, Kind: "digest", Value: exprOf(d.T[0], 0)})
 	}
 	return out
+}
+
+// evalDigestExpr evaluates "H(e1,e2,…)", "x:<hex>", "p:<hex>" exactly like the native rt package.
+func evalDigestExpr(e string, L int) []byte {
+	b, _ := parseDigestExpr(e, L)
+	return b
+}
+
+func parseDigestExpr(e string, L int) ([]byte, string) {
+	hashParts := func(parts [][]byte) []byte {
+		h := sha256.New()
+		for _, p := range parts {
+			h.Write(p)
+		}
+		return h.Sum(nil)[:L]
+	}
+	switch {
+	case strings.HasPrefix(e, "H("):
+		rest := e[2:]
+		var parts [][]byte
+		for {
+			if strings.HasPrefix(rest, ")") {
+				rest = rest[1:]
+				break
+			}
+			var p []byte
+			p, rest = parseDigestExpr(rest, L)
+			parts = append(parts, p)
+			if strings.HasPrefix(rest, ",") {
+				rest = rest[1:]
+			}
+			if rest == "" {
+				break
+			}
+		}
+		return hashParts(parts), rest
+	case strings.HasPrefix(e, "x:"), strings.HasPrefix(e, "p:"):
+		rest := e[2:]
+		i := 0
+		for i < len(rest) && rest[i] != ',' && rest[i] != ')' {
+			i++
+		}
+		b, _ := hex.DecodeString(rest[:i])
+		if e[0] == 'x' {
+			allZero := true
+			for _, c := range b {
+				if c != 0 {
+					allZero = false
+				}
+			}
+			if allZero {
+				s := sha256.Sum256([]byte("fresh:" + rest[:i]))
+				return s[:len(b)], rest[i:]
+			}
+		}
+		return b, rest[i:]
+	}
+	i := 0
+	for i < len(e) && e[i] != ',' && e[i] != ')' {
+		i++
+	}
+	s := sha256.Sum256([]byte("fresh:" + e[:i]))
+	return s[:L], e[i:]
 }
